@@ -102,6 +102,8 @@ type World struct {
 	handles          []*sod.DB
 	absOps           []string
 	lastPut          []putRecord
+	lastSchema       *sod.Schema
+	lastSchemaCfg    string
 	noHostile        bool
 	fixedQueries     []Query
 	maxLive          int
@@ -191,7 +193,20 @@ func (w *World) Open() {
 
 func (w *World) Create() error {
 	var err error
-	w.call("Create", func() { err = w.db.Create(&Rec{}, schemaFor(w.cfg, &Rec{})) })
+	sch := schemaFor(w.cfg, &Rec{})
+	w.lastSchema, w.lastSchemaCfg = &sch, w.cfg.String()
+	w.call("Create", func() { err = w.db.Create(&Rec{}, sch) })
+	return err
+}
+
+// CreateSameValue calls Create again with the very Schema value of the last
+// Create (an idempotent "ensure collection" call as an application does it).
+func (w *World) CreateSameValue() error {
+	if w.lastSchema == nil || w.lastSchemaCfg != w.cfg.String() {
+		return w.Create()
+	}
+	var err error
+	w.call("Create", func() { err = w.db.Create(&Rec{}, *w.lastSchema) })
 	return err
 }
 
